@@ -255,6 +255,8 @@ def _child_main(job, conn, crashfile):
     f = open(crashfile, "w")
     faulthandler.enable(file=f, all_threads=False)
     res = _shard_job(job)
+    from . import cover
+    cover.dump()
     conn.send(res)
     conn.close()
 
